@@ -8,6 +8,10 @@ class Boom(Exception):
     pass
 
 
+class BoomBase(BaseException):
+    """an exception that `except Exception` does not see (like KeyboardInterrupt, GeneratorExit, an application's abort signal)"""
+
+
 def gen_nodes(rng, depth, lo, ndefs, in_def, counter):
     """nodes that may call defs with index >= lo (so that every program terminates)"""
     out = []
@@ -69,7 +73,7 @@ def nodes_src(nodes):
         elif k == "B":
             out.append("${caller.body()}\\\n")
         elif k == "Y":
-            out.append("% try:\n" + nodes_src(n[1]) + "% except Exception:\n" + nodes_src(n[2]) + "% endtry\n")
+            out.append("% try:\n" + nodes_src(n[1]) + ("% except BaseException:\n" if BASE[0] else "% except Exception:\n") + nodes_src(n[2]) + "% endtry\n")
     return "".join(out)
 
 
@@ -103,6 +107,9 @@ def program_tok(defs, body):
                                    len(body), nodes_tok(body))
 
 
+BASE = [False]        # True: the planted exception derives from BaseException only, and the template's handlers say so
+
+
 def observe_render(src, **template_kw):
     """render through render_context with our own Context so that the output written directly, the
     stacks and the outcome can be seen whatever happens"""
@@ -117,7 +124,7 @@ def observe_render(src, **template_kw):
         return ""
 
     def boom():
-        raise Boom("boom")
+        raise (BoomBase if BASE[0] else Boom)("boom")
     t = Template(src, **template_kw)          # a compile error is not an outcome of the program: it propagates
     buf = util.FastEncodingBuffer()
     ctx = Context(buf, probe=probe, boom=boom, brk=lambda s: "[" + s + "]")
@@ -125,7 +132,7 @@ def observe_render(src, **template_kw):
     err = None
     try:
         t.render_context(ctx)
-    except Exception as e:  # noqa  (Boom, or the AttributeError of caller.body() without a caller)
+    except (Exception, BoomBase) as e:  # noqa  (Boom, or the AttributeError of caller.body() without a caller)
         outcome, err = "raised", e
     state = (len(ctx._buffer_stack), len(ctx.caller_stack), ctx.caller_stack.nextcaller is not None)
     return {"outcome": outcome, "output": buf.getvalue(), "state": state, "probes": probes, "template": t, "context": ctx, "buffer": buf, "error": err}
